@@ -299,7 +299,8 @@ func (l *localFS) KeysPrefix(_ context.Context, token, prefix, delimiter string,
 
 	// we cache the result for the duration of the fetch loop: during this period, localfs updates are not seen
 	search, ok := l.glob[prefix]
-	if !ok {
+	if !ok || token == "" {
+		// a listing restarted from the beginning never reuses the matches cached by an unfinished one
 		// NOTE: Glob is not workable, fall back to Walk
 		matches := make([]string, 0, 50)
 		err := afero.Walk(l.fs, path.Dir(prefix), func(pth string, info os.FileInfo, err error) error {
